@@ -25,12 +25,29 @@ REG = Registry(
 
 
 def km_machine(case, cap, thr=None):
+    """The settings arrive through the constructor, or (scikit-learn estimator API) through set_params / attribute
+    assignment on a machine built with other settings, or the machine is a clone of a configured one."""
+    import zlib
+
     from bob.learn.em import KMeansMachine
+    from sklearn.base import clone
 
     ini = case["init"]
     method = np.array(ini["init"], copy=True) if ini["method"] == "array" else ini["method"]
-    return KMeansMachine(case["k"], init_method=method, convergence_threshold=thr, max_iter=cap,
-                         random_state=int(ini["seed"]))
+    route = zlib.crc32(repr((cap, thr, int(ini["seed"]))).encode()) % 5
+    if route in (0, 4):
+        return KMeansMachine(case["k"], init_method=method, convergence_threshold=thr, max_iter=cap,
+                             random_state=int(ini["seed"]))
+    if route == 3:
+        return clone(KMeansMachine(case["k"], init_method=method, convergence_threshold=thr, max_iter=cap,
+                                   random_state=int(ini["seed"])))
+    m = KMeansMachine(case["k"], init_method=method, convergence_threshold=None if thr is not None else 0.5,
+                      max_iter=1 if cap != 1 else 7, random_state=int(ini["seed"]) + 1)
+    if route == 1:
+        m.set_params(convergence_threshold=thr, max_iter=cap, random_state=int(ini["seed"]))
+    else:
+        m.convergence_threshold, m.max_iter, m.random_state = thr, cap, int(ini["seed"])
+    return m
 
 
 def data_arg(case):
